@@ -8,7 +8,8 @@ from genlib import *
 LEAN_MODULES = ["MpirProofs.Props.C07_hgcd"]
 THEOREMS = ["Mpir.C07h.matrix22_mul_correct", "Mpir.C07h.hgcd_matrix_init_correct", "Mpir.C07h.hgcd_matrix_update_q_correct",
             "Mpir.C07h.hgcd_matrix_mul_1_correct", "Mpir.C07h.hgcd_matrix_mul_correct",
-            "Mpir.C07h.matrix22_mul1_inverse_vector_correct", "Mpir.C07h.hgcd_matrix_adjust_correct"]
+            "Mpir.C07h.matrix22_mul1_inverse_vector_correct", "Mpir.C07h.hgcd_matrix_adjust_correct",
+            "Mpir.C07h.hgcd_step_correct", "Mpir.C07h.mpn_hgcd_correct_partial", "Mpir.C07h.mpn_hgcd_reduce_correct_partial"]
 TRUSTED = ["hand-written value-level models lean/Mpir/Model/Hgcd.lean of the half-gcd layer (limb arrays as naturals with the size fields tracked; "
            "dropped carries modelled as reductions modulo the destination size), tied by exact comparison of every output on every run",
            "mpn_mulmod_bnm1 inside hgcd_matrix_apply is modelled by its contract (exact product when it fits, else a representative modulo B^n - 1); "
